@@ -8,7 +8,7 @@ from extract import c09_cmds
 from gen import exprgen
 from props.c12 import workdir
 
-THEOREMS = ["IgVerif.C09.c09_string_text_irrelevant", "IgVerif.C09.c09_comment_text_irrelevant", "IgVerif.Skip.skipGroup_string", "IgVerif.Skip.skipC_clean",
+THEOREMS = ["IgVerif.C09.c09_string_text_irrelevant", "IgVerif.C09.c09_comment_text_irrelevant", "IgVerif.C09.c09_endif_ends_group", "IgVerif.Skip.skipGroup_string", "IgVerif.Skip.skipC_clean",
             "IgVerif.C09.c09_refines", "IgVerif.C09.c09_skipped_no_effect", "IgVerif.C09.c09_after_taken_group", "IgVerif.C09.c09_undefined_is_zero",
             "IgVerif.C09.c09_extraction_ok", "IgVerif.C09.c09_active_dispatch", "IgVerif.C09.c09_skip_dispatch", "IgVerif.C09.c09_handlers",
             "IgVerif.Cond.run_refines"]
@@ -41,8 +41,10 @@ class Gen:
         if depth <= 0 or rng.random() < 0.3:
             r = rng.random()
             if r < 0.3:
-                n = rng.choice([0, 1, 2, 3, 7])
-                return str(n), "( int %d )" % n
+                n = rng.choice([0, 1, 2, 3, 7, 16, 255])
+                # the same value in every spelling a literal may have in an #if
+                spell = rng.choice(["%d", "%d", "0x%X", "0x%x", "%du", "%dL", "%dUL", "0%o", "0b" + bin(n)[2:], "0x%XU", "%dll"])
+                return (spell % n if "%" in spell else spell), "( int %d )" % n
             if r < 0.45:
                 m = rng.choice(MACROS + ["UNDEFINED_X"])
                 return m, "( ident %s )" % m
@@ -68,7 +70,7 @@ class Gen:
         pre = "" if first else "el"
         # what may follow a macro name on a directive line without being part of it
         tail = rng.choice(["", "", "", "\t", " \t ", "\t/* c */", " // c", "\t// c", " \\\n", "\t\\\n\t", "  ", " /* c */\t"])
-        sep = rng.choice([" ", " ", "\t", "  ", " \t"])
+        sep = rng.choice([" ", " ", "\t", "  ", " \t", " /* c */ ", "/**/", " /* a */ /* b */ "])
         if r < 0.25:
             m = rng.choice(MACROS)
             return ("#ifdef%s%s%s" if first else "#elifdef%s%s%s") % (sep, m, tail), ("ifdef %s" if first else "elifdef %s") % m
@@ -240,6 +242,7 @@ def run(ck):
     ck.lean_obligations("IgVerif.Props.C09", THEOREMS, PARTIAL)
     ck.trusted += ["tools/extract/c09_cmds.py (regex over the two dispatch chains)", "gcc -E -P as the reference conforming preprocessor",
                    "the model abstracts a source file to its sequence of directive lines and marker declarations"]
+    ck.trusted += ["Model/SkipScan.lean is a hand-written character-level model of skip_false_if_block and its helpers, tied to the code by the skipped-text stream only"]
     bdir = iglib.build_repo("std")
     wd = workdir(ck)
     ck.rule = ("well-nested directive programs: EVERY program over a small alphabet with at most N directive lines (N=4 quick, 6 thorough), plus random "
@@ -298,6 +301,29 @@ def run(ck):
                 lines.append("#endif")
                 dirs.append("endif")
             progs.append((lines, dirs))
+        # function-like macros in conditions, with arguments that contain commas and parentheses inside character literals, and numbers with
+        # digit separators (C++ only: compared with g++ -E, not modelled)
+        cprogs = []
+        for _ in range(20 if quick else 300):
+            a = rng.choice(["','", "'('", "')'", "'x'", "1'0", "0x1'F", "'\\''", "2"])
+            b = rng.choice(["','", "')'", "5", "1'000", "'('"])
+            val = {"','": 44, "'('": 40, "')'": 41, "'x'": 120, "1'0": 10, "0x1'F": 31, "'\\''": 39, "2": 2}[a]
+            cmpv = rng.choice([val, val + 1])
+            cprogs.append(["#define FIRST(a, b) a", "#define SECOND(a, b) b", "#if FIRST(%s, %s) == %d" % (a, b, cmpv), "int m0;", "#else", "int m1;", "#endif",
+                           "#if SECOND(%s, FIRST(%s, %s)) == %d" % (b, a, b, cmpv), "int m2;", "#endif", "int m3;"])
+        for lines in cprogs:
+            text = "\n".join(lines) + "\n"
+            (wd / "cp.h").write_text(text)
+            rc, so, se = iglib.sh([str(bdir / "bin" / "parse_file"), "-E", "cp.h"], cwd=str(wd), timeout=30)
+            rc2, so2, se2 = iglib.sh(["g++", "-E", "-P", "-x", "c++", "-std=c++17", "cp.h"], cwd=str(wd), timeout=30)
+            ck.search_case("gcc-reference")
+            if rc2 != 0:
+                continue
+            kept, ref = re.findall(r"\bint m(\d+) ?;", so), re.findall(r"\bint m(\d+) ?;", so2)
+            if rc < 0 or rc >= 126:
+                ck.violation("crash", "parse_file died (%d) on a condition with a function-like macro" % rc, {"input.h": text}, se[-1500:])
+            elif kept != ref:
+                ck.violation("groups-differ:macro-arguments", "parse_file keeps markers %s, g++ -E keeps %s" % (kept, ref), {"input.h": text, "cmd.txt": "parse_file -E input.h   vs   g++ -E -P -x c++ input.h\n"}, se[-1500:])
         # run the model on everything in one go
         model = iglib.run_driver("cond", ["cond " + " ; ".join(d) for _, d in progs], timeout=1200)
         for idx, ((lines, dirs), mline) in enumerate(zip(progs, model)):
